@@ -4,8 +4,10 @@
 #include "verif.h"
 #include "drbg_hmac.h"
 size_t g_bi, g_di, g_mz_idx;
-size_t g_er_idx; uint8_t g_er_snap; size_t g_er_calls;
-size_t g_ce_gen_calls, g_ce_done, g_ce_reseeds, g_ce_reseed_early, g_ce_inst; uint8_t g_ce_snap;
+#include "drbg_os.h"
+size_t g_er_calls, g_er_lastlen;
+size_t g_ce_gen_calls, g_ce_done, g_ce_reseeds, g_ce_reseed_early, g_ce_inst_calls, g_ce_inst, g_er_fails, g_blk;
+const uint8_t * g_ce_base;
 #undef CPUSUPPORT_X86_RDRAND
 #include "crypto/crypto_entropy.c"
 #include "sp800_90a_spec.h"
@@ -18,6 +20,8 @@ size_t g_ce_gen_calls, g_ce_done, g_ce_reseeds, g_ce_reseed_early, g_ce_inst; ui
 	IN(size_t, hm_n0); IN(size_t, hm_base); IN(size_t, bi); IN(size_t, di); \
 	g_hm.n = hm_n0; g_hm.open = 0; g_hm_base = hm_base; \
 	__CPROVER_assume(bi < 32); g_bi = bi; g_di = di; \
+	IN(size_t, er_idx); g_er_idx = er_idx; IN(size_t, blk); g_blk = blk; \
+	__CPROVER_assume(g_os.fd_state != OS_FD_OPEN); \
 	struct spec_drbg S; \
 	for (size_t i_ = 0; i_ < 32; i_++) { S.K[i_] = drbg.Key[i_]; S.V[i_] = drbg.V[i_]; } \
 	S.reseed_counter = drbg.reseed_counter
